@@ -342,7 +342,7 @@ def _run(scn, res, wd):
             a = ['-m', str(n)]
         out, caps = run_trace(a + eng + extra + [start, ref_file])
         ref = extract(caps[-1], frame)
-        h.update(out.encode())
+        h.update(out.replace(wd, '<wd>').encode())
 
         def chain(fmts, memptr0_after=()):
             cur = start
@@ -359,7 +359,7 @@ def _run(scn, res, wd):
                 else:
                     a = ['-m', str(p - done)]
                 o, caps = run_trace(a + eng + cur_extra + [cur, outf])
-                h.update(o.encode())
+                h.update(o.replace(wd, '<wd>').encode())
                 final = caps[-1]
                 cur = outf
                 cur_extra = []
